@@ -7,6 +7,7 @@ form. The value clause evaluates the expression emitted for every supported valu
 from __future__ import annotations
 
 import collections
+import enum
 import functools
 import importlib
 import inspect
@@ -24,7 +25,7 @@ import vt
 from vf import canon as C
 from vf import dagedit, gen
 from vf.common import safe_repr
-from vt import dup1, dup2, kinds, sigs, tags as vtags
+from vt import child as vchild, dup1, dup2, kinds, sigs, tags as vtags
 
 ID = 'C12'
 LEVEL = 'exploration'
@@ -164,6 +165,17 @@ def make_config(rng):
                          (kinds.Rank.SECOND, kinds.Level.HIGH)])
       for (n, k), v in zip(rng.sample(slots, 2), pair):
         n.kw[k] = gen.Leaf(v)
+  if rng.random() < 0.1:
+    # a function / class used only as an argument VALUE, from a module that is imported for its
+    # sake alone and whose name equals the parameter name (`child=child.relu`), in two places
+    hosts = [n for n in gen.walk(root) if isinstance(n, gen.B) and n.btype in ('Config', 'Partial')
+             and n.fn in (kinds.Base, kinds.Mid, kinds.Other) and len(n.pos) < 2]
+    if hosts:
+      v = rng.choice([vchild.relu, vchild.Act])
+      for n in rng.sample(hosts, min(len(hosts), 2)):
+        n.kw['child'] = gen.Leaf(v)
+      if len(hosts) == 1 and root.btype != 'TaggedValue' and root.fn in (kinds.node, kinds.node2):
+        root.kw['c'] = gen.Leaf(v)
   if rng.random() < 0.04:
     # a functools.partial as a leaf value (a supported value of the expression converter)
     slots = [(n, k) for n in gen.walk(root) if isinstance(n, gen.B) and n.btype != 'TaggedValue'
@@ -171,6 +183,22 @@ def make_config(rng):
     if slots:
       n, k = rng.choice(slots)
       n.kw[k] = gen.Leaf(functools.partial(kinds.two, 1, y='p'))
+  if rng.random() < 0.1:
+    # a list of functions / classes as an argument value (a sub-fixture candidate of its own)
+    slots = [(n, k) for n in gen.walk(root) if isinstance(n, gen.B) and n.btype != 'TaggedValue'
+             for k, c in n.kw.items() if isinstance(c, gen.Leaf) and k != 'uid']
+    if slots:
+      n, k = rng.choice(slots)
+      n.kw[k] = gen.Seq('list', [gen.Leaf(kinds.two), gen.Leaf(rng.choice([kinds.three, kinds.Base]))])
+      n.kw[k].symbol_list = True
+  if rng.random() < 0.06 and root.btype == 'Config':
+    # the configuration itself is a container: a dict keyed by functions, or a list
+    other = gen.B('Config', kinds.two, kw={'x': gen.Leaf(1)})
+    r_ = rng.random()
+    if r_ < 0.25:
+      root = gen.Map('dict', [(kinds.two, root), (kinds.three, other)])     # keyed by functions
+    else:
+      root = gen.Seq('list', [root, other])
   return root
 
 
@@ -461,6 +489,9 @@ def present_features(root, opt):
     f.append('special-leaf')
   if any(isinstance(n, gen.Leaf) and isinstance(n.value, functools.partial) for n in nodes):
     f.append('functools-partial-leaf')
+  if any(isinstance(n, gen.Map) and any(callable(k) or isinstance(k, enum.Enum) for k, _ in n.items)
+         for n in nodes):
+    f.append('symbol-dict-keys')
   if any(isinstance(n, gen.Seq) and n.typ in ('point', 'pair') for n in nodes):
     f.append('named-tuple')
   if any(isinstance(n, gen.B) and n.btype == 'TaggedValue' for n in nodes):
@@ -518,6 +549,16 @@ def _rm_partial_leaf(root):
   return ch
 
 
+def _rm_symbol_keys(root):
+  ch = False
+  for n in gen.walk(root):
+    if isinstance(n, gen.Map) and any(callable(k) or isinstance(k, enum.Enum) for k, _ in n.items):
+      n.items = [((f'key{i}' if callable(k) or isinstance(k, enum.Enum) else k), v)
+                 for i, (k, v) in enumerate(n.items)]
+      ch = True
+  return ch
+
+
 def _rm_builtin_callable(root):
   ch = False
   for n in gen.walk(root):
@@ -550,7 +591,7 @@ def _rm_builtin_names(root):
 
 
 CONFIG_FEATURES = [
-    ('functools-partial-leaf', _rm_partial_leaf),
+    ('functools-partial-leaf', _rm_partial_leaf), ('symbol-dict-keys', _rm_symbol_keys),
     ('builtin-callable', _rm_builtin_callable), ('builtin-names', _rm_builtin_names),
     ('frozen-dataclass-callable', _rm_frozen),
     ('special-leaf', _rm_special), ('named-tuple', _rm_named_tuple), ('tagged-value', _rm_tagged_value),
@@ -669,7 +710,10 @@ def run_main(spec, acc):
               pool = bnodes + [n for n in gen.walk(root)
                                if ((isinstance(n, gen.Seq) and n.typ in ('list', 'tuple')) or
                                    (isinstance(n, gen.Map) and n.typ == 'dict'))
-                               and any(isinstance(x, gen.B) for x in gen.walk(n))]
+                               and (any(isinstance(x, gen.B) for x in gen.walk(n))
+                                    # (a sub-fixture without any Buildable cannot be an
+                                    # @auto_config function: plain generator only)
+                                    or (getattr(n, 'symbol_list', False) and genname == 'new_codegen'))]
             picked = rng.sample(pool, rng.randint(1, min(2, len(pool))))
             opt['sub_uids'] = [n.uid for n in picked]
             if any(not isinstance(n, gen.B) for n in picked):
